@@ -1096,7 +1096,15 @@ def get_command_instance(
     """
     cname = "%sCommand" % name.lower().capitalize()
     gl = globals()
-    condition = cname not in gl
+    cmdclass = gl.get(cname)
+    # the intermediate classes (ControlCommand...) and the exception
+    # UnknownCommand are not commands
+    condition = not (
+        isinstance(cmdclass, type)
+        and issubclass(cmdclass, Command)
+        and hasattr(cmdclass, "args_definition")
+        and hasattr(cmdclass, "_type")
+    )
     if condition:
         raise UnknownCommand(name)
     condition = (
